@@ -5,11 +5,12 @@ import RichModel.Lemmas.StyleSpell
 import RichModel.Lemmas.StyleSpellNum
 import RichModel.Lemmas.StyleSpellRgb
 import RichModel.Lemmas.StrTablesReal
+import RichModel.Lemmas.StyleCtor
 /-!
 # C06 — styles form a consistent algebra, round-trip through text, and hash consistently
 
-Property theorems only, 40 of them (helper lemmas live in `Lemmas/Style`, `StyleText`, `StyleParse`,
-`StyleSpell`, `StyleSpellNum`, `StyleSpellRgb`, `ColorParse`, `StrTablesReal`).  `v : StyleVariant`
+Property theorems only, 53 of them (helper lemmas live in `Lemmas/Style`, `StyleText`, `StyleParse`,
+`StyleSpell`, `StyleSpellNum`, `StyleSpellRgb`, `ColorParse`, `StrTablesReal`, `StyleCtor`).  `v : StyleVariant`
 selects the code variant (seven flags, `Model/ColorParse.lean`; `StyleVariant.old` = rich 9.10.0 as
 found, `StyleVariant.fixed` = `.repaired` = what /repo contains since fixes c34676b, a639ea2, cf948b2,
 c566893): the algebra and the text theorems hold for *every* variant unless a flag is named in the
@@ -318,6 +319,162 @@ theorem keywords_are_not_colors (T : StrTables) [T.Lawful] (v : StyleVariant) (k
     Color.parseT T v k = .error .colorParse :=
   keyword_not_color T v hk
 
+/-! ## The public colour constructors as construction routes
+
+`Color.from_ansi`, `Color.from_triplet`, `Color.from_rgb`, `Color.default` (`Model/StyleCtor.lean`) store a
+name that is a definition of the very colour they build — same name, same `ColorType`, same number, same
+triplet (colours are NamedTuples: `==` and `hash` see all four fields).  So a style whose colours come
+from these constructors is `==` (with equal stored hash) to the one parsed from its text, and its `str()`
+round trips.  An off-by-one in `from_ansi`'s `number < 16` alone (not in `Color.parse`) breaks exactly
+`from_ansi_is_parsed_color` at 16. -/
+
+/-- `Color.parse("color(n)")` is `Color.from_ansi(n)` — field by field, `ColorType` included — for every n ≤ 255. -/
+theorem from_ansi_is_parsed_color (T : StrTables) [T.Lawful] (v : StyleVariant) (n : Nat) (h : n < 256) :
+    Color.parseT T v (cl! "color(" ++ Nat.toDigits 10 n ++ cl! ")") = .ok (Color.fromAnsi n) ∧
+    (Color.fromAnsi n).type = (if n < 16 then .standard else .eightBit) ∧ (Color.fromAnsi n).number = some n :=
+  ⟨(wfColor_facts (fromAnsi_wf (T := T) v h)).2.2.2, rfl, rfl⟩
+
+/-- `Color.from_ansi` does not validate: `from_ansi(256)` is an eight-bit colour named `color(256)`, which
+`Color.parse` rejects — the bound in `from_ansi_is_parsed_color` is needed. -/
+theorem from_ansi_out_of_range :
+    (Color.fromAnsi 256).type = .eightBit ∧ wfColorT StrTables.ascii StyleVariant.fixed (Color.fromAnsi 256) = false := by
+  decide
+
+/-- `Color.parse(triplet.hex)` is `Color.from_triplet(triplet)` (= `Color.from_rgb` of floats truncating to
+it), and `Color.parse(triplet.rgb)` is the truecolor with the same triplet — for all 2^24 triplets. -/
+theorem from_triplet_is_parsed_hex (T : StrTables) [T.Lawful] (v : StyleVariant) (r g b : Nat)
+    (hr : r < 256) (hg : g < 256) (hb : b < 256) :
+    Color.parseT T v (Color.tripletHex ⟨r, g, b⟩) = .ok (Color.fromTriplet ⟨r, g, b⟩) ∧
+    Color.parseT T v (Color.tripletRgb ⟨r, g, b⟩) =
+      .ok { name := Color.tripletRgb ⟨r, g, b⟩, type := .truecolor, triplet := some ⟨r, g, b⟩ } ∧
+    (∀ r4 g4 b4, r4 / 4 = r → g4 / 4 = g → b4 / 4 = b → Color.fromRgbQuarters r4 g4 b4 = Color.fromTriplet ⟨r, g, b⟩) := by
+  refine ⟨(wfColor_facts (fromTriplet_wf (T := T) v hr hg hb)).2.2.2,
+    (wfColor_facts (rgb_color_wf (T := T) v r g b hr hg hb)).2.2.2, ?_⟩
+  intro r4 g4 b4 e1 e2 e3
+  simp [Color.fromRgbQuarters, e1, e2, e3]
+
+/-- Every colour the public constructors make from in-range arguments (and every table name) is
+well-formed: white-space free and parsed back from its own name. -/
+theorem made_color_wf (T : StrTables) [T.Lawful] (v : StyleVariant) (c : Color) (h : MadeColor c) :
+    wfColorT T v c = true ∧ Color.parseT T v c.name = .ok c :=
+  ⟨h.wf v, (wfColor_facts (h.wf (T := T) v)).2.2.2⟩
+
+/-- **All routes from a constructor-made colour to a one-colour style agree**: `Style(color=c)`,
+`Style(color=c.name)`, `Style.parse(c.name)`, `Style.from_color(c)` are the same style, with the same
+stored hash key; likewise for the background with `on`, and `background_style` of any style with that
+background. -/
+theorem made_color_routes_agree (T : StrTables) [T.Lawful] (v : StyleVariant) (hv : v.fromColorHash = false)
+    (c : Color) (h : MadeColor c) :
+    let fg := onlyColor c true
+    let bg := onlyColor c false
+    initT T v (some (.color c)) none [] none = .ok fg ∧ initT T v (some (.str c.name)) none [] none = .ok fg ∧
+    parseT T v c.name = .ok fg ∧ fromColor v (some c) none = fg ∧
+    initT T v none (some (.color c)) [] none = .ok bg ∧ initT T v none (some (.str c.name)) [] none = .ok bg ∧
+    parseT T v (cl! "on " ++ c.name) = .ok bg ∧ fromColor v none (some c) = bg ∧
+    (∀ s : Style, s.bgcolor = some c → backgroundStyleT T v s = .ok bg) :=
+  have hw := h.wf (T := T) v
+  ⟨(init_color T v c).1, (init_color_name hw).1, (parse_color_word hw).1, (fromColor_only v hv c).1,
+   (init_color T v c).2, (init_color_name hw).2, (parse_color_word hw).2, (fromColor_only v hv c).2,
+   fun _ hs => backgroundStyle_some T v hs⟩
+
+/-- **Round trip for constructor-made colours**: every constructible style whose colours come from the
+public colour constructors (in range) and whose link is `None` or one word has a `str()` that parses back to it. -/
+theorem made_color_roundtrip (T : StrTables) [T.Lawful] (v : StyleVariant) (hv : v.updateLinkDef = false) (s : Style)
+    (hr : Reachable v s) (hc : ∀ c, s.color = some c → MadeColor c) (hb : ∀ c, s.bgcolor = some c → MadeColor c)
+    (hl : wfLinkT T s.link = true) : ∃ s', parseT T v (str s) = .ok s' ∧ eq s' s = true :=
+  parse_str_roundtrip T v hv s hr
+    (wf_iff.mpr ⟨hr.inv.attrs_sub, hr.inv.set_lt, fun c h => (hc c h).wf v, fun c h => (hb c h).wf v, hl⟩)
+
+/-! ## Links -/
+
+/-- **A link containing white space cannot round trip**, by construction of the grammar (`link` takes the
+next word only): whatever `str()` of such a style parses to, its link differs.  This is why the round
+trip is stated for `Style.wf` (link `None` or one non-empty word); any single word — upper case, `%`,
+non-ASCII, of any length — is inside `wf` and is kept verbatim (`parse` does not lower-case the word after `link`). -/
+theorem link_with_space_no_roundtrip (T : StrTables) [T.Lawful] (v : StyleVariant) (s s' : Style) (l : List Char)
+    (hl : s.link = some l) (hsp : T.noSpace l = false) (d : List Char) (h : parseT T v d = .ok s') :
+    s'.link ≠ s.link := by
+  intro e
+  have hw := (wf_iff.mp (parse_result_wf T v d s' h)).link
+  rw [e, hl] at hw
+  simp [wfLinkT, hsp] at hw
+
+/-- Witness: `Style(link="a b")` prints as `link a b`, which parses — to the link `a` with `bold` on. -/
+theorem link_two_words_witness :
+    (match init StyleVariant.fixed none none [] (some (cl! "a b")) with
+     | .ok s => some (str s, (parse StyleVariant.fixed (str s)).toOption.map (fun t => (t.link, t.attr 0, eq t s)))
+     | .error _ => none) = some (cl! "link a b", some (some ['a'], some true, false)) := by
+  decide
+
+/-- The word after `link` is stored verbatim (no lower-casing), for every one-word link: `normalize` and
+`str()` keep the letter case of a URL. -/
+theorem link_word_verbatim (T : StrTables) [T.Lawful] (v : StyleVariant) (l : List Char) (hne : l ≠ [])
+    (hns : T.noSpace l = true) :
+    ∃ s', parseT T v (cl! "link " ++ l) = .ok s' ∧ s'.link = some l ∧ normalizeT T v (cl! "link " ++ l) = .ok (cl! "link " ++ l) := by
+  let s : Style := { color := none, bgcolor := none, attributes := 0, setAttributes := 0, link := some l,
+                     hash := ⟨none, none, some 0, some 0, some l⟩, isNull := false, styleDef := none }
+  have hne' : l.isEmpty = false := by cases l <;> simp_all
+  have hwf : wfT T v s = true := by simp [wfT, s, wfLinkT, hns, hne']
+  have hrender : render s = cl! "link " ++ l := by
+    cases l with
+    | nil => exact absurd rfl hne
+    | cons x r => simp [render, strElems, s, strTruthy, joinSpace]
+  obtain ⟨s', h1, h2⟩ := parse_render_roundtrip T v s hwf
+  rw [hrender] at h1
+  rw [eq_iff] at h2
+  refine ⟨s', h1, h2.2.2.2.2, ?_⟩
+  have e1 : str s' = render s' := (parse_wf h1).2
+  have : render s' = render s := render_eq_of_eq (by rw [eq_iff]; exact h2)
+  simp only [normalizeT, h1]
+  rw [e1, this, hrender]
+
+/-! ## The remaining public constructors -/
+
+/-- `background_style` is `Style(bgcolor=self.bgcolor)`: constructible (so `eq_hash` covers it), only the
+background set; with no background it is a `_null` style with the fields of `NULL_STYLE`. -/
+theorem background_style_spec (T : StrTables) (v : StyleVariant) (s : Style) :
+    ∃ t, backgroundStyleT T v s = .ok t ∧ Reachable v t ∧ t.bgcolor = s.bgcolor ∧ t.color = none ∧
+      t.setAttributes = 0 ∧ t.link = none ∧ t.hashKey = t.fieldsKey ∧ t.isNull = s.bgcolor.isNone := by
+  cases hb : s.bgcolor with
+  | none =>
+    have h : backgroundStyleT T v s = initT T v none none [] none := by unfold backgroundStyleT; rw [hb]; rfl
+    have h2 : initT T v none none [] none = .ok ⟨none, none, 0, 0, none, ⟨none, none, some 0, some 0, none⟩, true, none⟩ := by
+      simp [initT, kwSet_nil, storedLink, linkVal, strTruthy]
+    rw [h2] at h
+    refine ⟨_, h, Reachable.init (T := T) h2, ?_⟩
+    simp [fieldsKey, hashKey]
+  | some c =>
+    have h := backgroundStyle_some T v hb
+    refine ⟨_, h, Reachable.init h, ?_⟩
+    simp [onlyColor, fieldsKey, hashKey]
+
+/-- `Style.pick_first(*values)` returns the first non-`None` value itself, and raises `ValueError` exactly
+when there is none; `Style.combine` is `Style.chain`; `sum(styles, start)` is the left fold of `+`. -/
+theorem pick_first_combine_sum (v : StyleVariant) (l : List (Option Style)) (start : Style) (ss : List Style) :
+    (pickFirst l = match l.find? Option.isSome with
+      | some (some s) => .ok s
+      | _ => .error .valueError) ∧
+    combine v ss = chain v ss ∧ sumFrom v start ss = ss.foldl (add v) start ∧
+    chain v (start :: ss) = .ok (sumFrom v start ss) :=
+  ⟨pickFirst_spec l, rfl, rfl, rfl⟩
+
+/-- …and they stay inside the constructible styles, so `eq_hash`, the algebra and the round trip cover them. -/
+theorem pick_first_sum_reachable (v : StyleVariant) (l : List (Option Style)) (start s : Style) (ss : List Style)
+    (hl : ∀ x, some x ∈ l → Reachable v x) (h0 : Reachable v start) (hs : ∀ x ∈ ss, Reachable v x) :
+    (pickFirst l = .ok s → Reachable v s) ∧ Reachable v (sumFrom v start ss) :=
+  ⟨fun h => hl s (pickFirst_mem h), Reachable.foldl ss h0 hs⟩
+
+/-- `transparent_background`: no background, or the default colour. -/
+theorem transparent_background_spec (s : Style) :
+    s.transparentBackground = true ↔ (s.bgcolor = none ∨ ∃ c, s.bgcolor = some c ∧ c.type = .default) := by
+  unfold transparentBackground
+  cases s.bgcolor with
+  | none => simp
+  | some c =>
+    obtain ⟨n, ty, num, tr⟩ := c
+    simp only [reduceCtorEq, false_or, Option.some.injEq, exists_eq_left']
+    cases ty <;> decide
+
 /-! ## Equal styles have equal hashes -/
 
 /-- With the four hash repairs, every constructible style stores the hash of its own five compared fields. -/
@@ -416,5 +573,13 @@ example : (Color.parseT StrTables.real StyleVariant.fixed (cl! "\u3000rgb(\u0661
     some (some ⟨1, 2, 3⟩) := by decide +kernel
 example : (parse StyleVariant.fixed (cl! "bold red")).toOption.map (fun s => (s.attr 0, s.attr 1)) = some (some true, none) := by
   decide
+
+-- the new hypotheses are satisfiable by concrete non-trivial values
+example : MadeColor (Color.fromAnsi 16) := MadeColor.ansi (by decide)
+example : MadeColor (Color.fromRgbQuarters 1023 67 0) := MadeColor.rgb (by decide) (by decide) (by decide)
+example : (Color.fromAnsi 16).type = .eightBit ∧ (Color.fromAnsi 15).type = .standard := by decide
+example : Color.tripletHex ⟨255, 15, 16⟩ = cl! "#ff0f10" := by decide
+example : StrTables.ascii.noSpace (cl! "a b") = false ∧ StrTables.ascii.noSpace (cl! "HTTPS://X.y/%20") = true := by decide
+example : pickFirst [none, some sample, some Style.null] = .ok sample := rfl
 
 end RichModel.C06
